@@ -188,6 +188,7 @@ pub fn lock_touch(lock: i64, mode: i64) { event("lk", &[LK_TOUCH, lock, mode]); 
 
 /// a guard of a map (DashMap `Ref`/`RefMut`/iterator) that stays alive while other code runs; released when the returned value drops
 pub fn lock_held(lock: i64, mode: i64) -> HeldLock {
+    HELD_MAP_GUARDS.with(|held| held.set(held.get() + 1));
     event("lk", &[LK_ACQ, lock, mode]);
     event("lk", &[LK_GOT, lock, mode]);
     HeldLock(lock, mode)
@@ -196,7 +197,21 @@ pub fn lock_held(lock: i64, mode: i64) -> HeldLock {
 pub struct HeldLock(i64, i64);
 
 impl Drop for HeldLock {
-    fn drop(&mut self) { event("lk", &[LK_REL, self.0, self.1]); }
+    fn drop(&mut self) {
+        HELD_MAP_GUARDS.with(|held| held.set(held.get() - 1));
+        event("lk", &[LK_REL, self.0, self.1]);
+    }
+}
+
+thread_local! {
+    static HELD_MAP_GUARDS: std::cell::Cell<i64> = std::cell::Cell::new(0);
+}
+
+/// Schedule point "L_AcqR" / "L_AcqW" in front of every acquisition of a traced lock (argument: address of the lock),
+/// so that a harness can interleave threads at the grain of the critical sections rather than of the named points only.
+/// Not offered while the thread keeps a map guard alive (a thread must not be parked inside a DashMap shard lock).
+fn lock_point(lock: i64, mode: i64) {
+    if HELD_MAP_GUARDS.with(|held| held.get()) == 0 { point(if mode == 0 { "L_AcqR" } else { "L_AcqW" }, lock); }
 }
 
 /// blocking queue operations: kind 1 send, 2 recv; `queue` identifies the channel (1 commands, 2 access batches)
@@ -214,6 +229,7 @@ impl<T> RwLock<T> {
     fn id(&self) -> i64 { self as *const Self as i64 }
 
     pub fn read(&self) -> ReadGuard<'_, T> {
+        lock_point(self.id(), 0);
         event("lk", &[LK_ACQ, self.id(), 0]);
         let guard = self.0.read();
         event("lk", &[LK_GOT, self.id(), 0]);
@@ -221,6 +237,7 @@ impl<T> RwLock<T> {
     }
 
     pub fn write(&self) -> WriteGuard<'_, T> {
+        lock_point(self.id(), 1);
         event("lk", &[LK_ACQ, self.id(), 1]);
         let guard = self.0.write();
         event("lk", &[LK_GOT, self.id(), 1]);
@@ -263,6 +280,7 @@ impl<T> Mutex<T> {
     fn id(&self) -> i64 { self as *const Self as i64 }
 
     pub fn lock(&self) -> MutexGuard<'_, T> {
+        lock_point(self.id(), 1);
         event("lk", &[LK_ACQ, self.id(), 1]);
         let guard = self.0.lock();
         event("lk", &[LK_GOT, self.id(), 1]);
